@@ -73,7 +73,9 @@ StepNext(e) ==
       isWaitDone == pre.cmd.st = "run" /\ pre.cmd.arg.t = "n" /\ e.in.done
       early == isWaitDone /\ (e.t1 - disp[e.r]) * pre.cmd.arg.d < pre.cmd.arg.n * 1000
   IN IF t.out.k = "oos"
-     THEN /\ skip' = TRUE /\ stats' = Bump("oos") /\ UNCHANGED <<rs, snaps, bad>>
+     THEN \* outside the modelled window: no verdict, except that a panic is never acceptable
+          /\ skip' = TRUE /\ stats' = Bump("oos") /\ UNCHANGED <<rs, snaps>>
+          /\ bad' = IF o.out.k = "panic" THEN Report(e, "out", <<"out">>, [k |-> "anything but a panic"], o.out, pre) ELSE bad
      ELSE IF early
      THEN /\ skip' = TRUE /\ stats' = Bump("checked")
           /\ bad' = Report(e, "wait-too-early", <<"wait-too-early">>,
